@@ -138,7 +138,7 @@ def drop : Nat → Heap → Nat → Heap
       | some o =>
         if o.rc ≤ 1 then
           if o.destroy then
-            let h1 := o.refs.foldl (fun h r => match r with | none => h | some r => drop n h r) h
+            let h1 := o.refs.foldl (fun h r => r.elim h (drop n h)) h       -- `sqfs_drop(NULL)` is a no-op
             let h2 := o.bufs.foldl freeSlot h1
             freeObj h2 id
           else h.fail .nullHook
